@@ -5,14 +5,13 @@ from __future__ import annotations
 from contextlib import suppress
 from typing import TYPE_CHECKING
 
+from ..language.ast import Node
 from ..language.source import Source, is_source
 from ..pyutils import inspect
 from .graphql_error import GraphQLError
 
 if TYPE_CHECKING:
     from collections.abc import Collection
-
-    from ..language.ast import Node
 
 __all__ = ["located_error"]
 
@@ -53,5 +52,12 @@ def located_error(
         positions = None
 
     with suppress_attribute_error:
-        nodes = original_error.nodes or nodes  # type: ignore
+        original_nodes = original_error.nodes  # type: ignore
+        # Only adopt the nodes attribute of a foreign error if it holds AST nodes.
+        if isinstance(original_nodes, Node) or (
+            isinstance(original_nodes, (list, tuple))
+            and original_nodes
+            and all(isinstance(node, Node) for node in original_nodes)
+        ):
+            nodes = original_nodes
     return GraphQLError(message, nodes, source, positions, path, original_error)
